@@ -17,6 +17,8 @@ FILES = [
     "lerax/space/box.py", "lerax/space/discrete.py", "lerax/space/multi_binary.py", "lerax/space/multi_discrete.py", "lerax/space/dict.py", "lerax/space/tuple.py",
     "lerax/distribution/base_distribution.py", "lerax/distribution/categorical.py", "lerax/distribution/bernoulli.py", "lerax/distribution/multi_categorical.py",
     "lerax/distribution/squashed_normal.py", "lerax/distribution/squashed_multivariate_normal.py", "lerax/policy/actor.py", "lerax/policy/q/base_q.py", "lerax/policy/sac/mlp.py",
+    "lerax/env/unitree/g1/randomize.py", "lerax/env/unitree/g1/gait.py", "lerax/env/unitree/g1/base_g1.py", "lerax/env/unitree/g1/locomotion.py",
+    "lerax/env/unitree/g1/standing.py", "lerax/env/unitree/g1/standup.py",
 ]
 PROPS_OF = {
     "lerax/buffer/rollout.py": ["C03", "C09"], "lerax/buffer/replay.py": ["C06"], "lerax/buffer/base_buffer.py": ["C09", "C06"],
@@ -32,6 +34,8 @@ PROPS_OF = {
     "lerax/distribution/base_distribution.py": ["C15"], "lerax/distribution/categorical.py": ["C15", "C16"], "lerax/distribution/bernoulli.py": ["C15", "C16"],
     "lerax/distribution/multi_categorical.py": ["C15", "C16"], "lerax/distribution/squashed_normal.py": ["C15"], "lerax/distribution/squashed_multivariate_normal.py": ["C15"],
     "lerax/policy/actor.py": ["C16"], "lerax/policy/q/base_q.py": ["C16"], "lerax/policy/sac/mlp.py": ["C16"],
+    "lerax/env/unitree/g1/randomize.py": ["C20"], "lerax/env/unitree/g1/gait.py": ["C20"], "lerax/env/unitree/g1/base_g1.py": ["C20"],
+    "lerax/env/unitree/g1/locomotion.py": ["C20"], "lerax/env/unitree/g1/standing.py": ["C20"], "lerax/env/unitree/g1/standup.py": ["C20"],
 }
 
 
